@@ -448,6 +448,7 @@ pub fn shards<F: Fn(usize) + Sync>(n: usize, f: F) {
         for i in 0..n {
             let f = &f;
             std::thread::Builder::new()
+                .name(format!("hv-shard-{}", i))
                 .stack_size(16 << 20)
                 .spawn_scoped(s, move || f(i))
                 .unwrap();
@@ -474,7 +475,16 @@ pub fn catch<R>(f: impl FnOnce() -> R) -> Result<R, String> {
 
 /// Install a panic hook that stays silent (oracles use catch_unwind a lot).
 pub fn quiet_panics() {
-    std::panic::set_hook(Box::new(|_| {}));
+    if std::env::var("HV_DEBUG").is_ok() {
+        return;
+    }
+    // silent for panics caught by oracles; a panic of the harness itself (main thread / scoped shard) still reports
+    std::panic::set_hook(Box::new(|info| {
+        let name = std::thread::current().name().map(|s| s.to_string()).unwrap_or_default();
+        if name == "main" || name.starts_with("hv-shard") {
+            eprintln!("HARNESS PANIC in thread {}: {}", name, info);
+        }
+    }));
 }
 
 // ---------------------------------------------------------------- enumeration helpers
